@@ -59,20 +59,64 @@ func Analyze(evs []Ev) *Analysis {
 	return a
 }
 
-// Witness collects the events that mention a value (bounded).
+// Witness collects the history of the value's key from shortly before the value was issued until
+// shortly after its last callback (bounded), with the events that mention the value marked.
 func (a *Analysis) Witness(v uint64, extra ...Ev) []string {
 	var out []string
-	for i := range a.Evs {
-		e := a.Evs[i]
-		if e.Val == v && (e.Kind == EvSet || e.Kind == EvOnEvict || e.Kind == EvOnReject || e.Kind == EvOnExit || (e.Kind == EvGet && e.Ok) || e.Kind == EvIter) {
-			out = append(out, e.String())
-			if len(out) > 30 {
-				break
-			}
+	vi := a.Vals[v]
+	key := int32(ValKey(v))
+	lo, hi := int64(1<<62), int64(0)
+	upd := func(t int64) {
+		if t < lo {
+			lo = t
+		}
+		if t > hi {
+			hi = t
+		}
+	}
+	if vi != nil {
+		if vi.Set != nil {
+			upd(vi.Set.T1)
+			upd(vi.Set.T2)
+		}
+		for _, t := range vi.Exits {
+			upd(t)
+		}
+		for _, t := range vi.Evicts {
+			upd(t)
+		}
+		for _, t := range vi.Rejects {
+			upd(t)
 		}
 	}
 	for _, e := range extra {
-		out = append(out, "-> "+e.String())
+		upd(e.T1)
+		upd(e.T2)
+	}
+	lo -= 40
+	hi += 10
+	n := 0
+	for i := range a.Evs {
+		e := a.Evs[i]
+		if e.T1 < lo || e.T1 > hi {
+			continue
+		}
+		mark := "   "
+		if e.Val == v && e.Kind != EvHook {
+			mark = "** "
+		} else if e.Kind == EvClear || e.Kind == EvClose || e.Kind == EvWait {
+			mark = " . "
+		} else if e.Key != key || e.Kind == EvHook {
+			continue
+		} else if e.Kind == EvGet && mark == "   " && n > 150 {
+			continue
+		}
+		out = append(out, mark+e.String())
+		n++
+		if n > 400 {
+			out = append(out, "... (truncated)")
+			break
+		}
 	}
 	return out
 }
